@@ -63,6 +63,7 @@ type Engine struct {
 	SSA        map[string]*ssa.Package      // by role
 	Prog       *ssa.Program
 	all        []*ssa.Function // source functions of the six packages (incl. closures)
+	inits      []*ssa.Function // synthetic package initialisers of the six packages (lazily filled by callersOf)
 	allSet     map[*ssa.Function]bool
 	cg         *callgraph.Graph
 	obs        []Ob
@@ -440,6 +441,9 @@ func (e *Engine) unwrap(f *ssa.Function) *ssa.Function {
 		if f.Origin() != nil {
 			break // an instantiation of a generic function is a function in its own right
 		}
+		if f.Name() == "init" && f.Signature.Recv() == nil && f.Parent() == nil {
+			break // a package initialiser is not a wrapper of the last function it calls
+		}
 		if obj, ok := f.Object().(*types.Func); ok && obj != nil {
 			if g := e.Prog.FuncValue(obj); g != nil && g != f {
 				f = g
@@ -592,7 +596,17 @@ func (e *Engine) reach0(roots ...*ssa.Function) map[*ssa.Function]bool {
 // callersOf returns call sites (in source functions of the six packages) that may call fn.
 func (e *Engine) callersOf(fn *ssa.Function) []ssa.CallInstruction {
 	var out []ssa.CallInstruction
-	for _, f := range e.all {
+	scan := e.all
+	if e.inits == nil {
+		e.inits = []*ssa.Function{}
+		for _, role := range sortedKeys(e.SSA) {
+			if f := e.SSA[role].Func("init"); f != nil {
+				e.inits = append(e.inits, f) // package-level initialisers call function-building helpers
+			}
+		}
+	}
+	scan = append(append([]*ssa.Function{}, scan...), e.inits...)
+	for _, f := range scan {
 		for _, b := range f.Blocks {
 			for _, in := range b.Instrs {
 				if c, ok := in.(ssa.CallInstruction); ok {
